@@ -84,6 +84,12 @@ def gen_model(rng, i, route=None):
     small = ["Al", "Cu", "Ni"]
     ren = {s_: small[k % 3] for k, s_ in enumerate(m["all_species"])} if len(m["all_species"]) <= 3 else {}
     if ren:
+      # species named only by pair entries (outsiders) keep a label outside the small alphabet
+      for ent in m.get("pair") or []:
+        for x in ent[:2]:
+          if x not in ren:
+            ren[x] = "Xo"
+    if ren:
       m = json.loads(json.dumps(m))
       m["all_species"] = [ren[x] for x in m["all_species"]]
       for key in ("pair", "embed", "density", "dipole", "quadrupole"):
